@@ -164,6 +164,52 @@ fn privacy_scan(s: &Session, secrets: &[Secrets], source: &Secrets, o: &mut Outc
             }
         }
     }
+    // the map view: a pin is the rendering of a hop's GeoIP location.  Every pin on screen must
+    // belong to a location of a visible hop, so there are never more pins than visible responders
+    // (pins may coincide or be covered, hence an upper bound)
+    if privacy.is_some() && app.show_map && !app.show_help && !app.show_settings {
+        // (a pin is two columns wide: the cell to its right is covered by it on a terminal, but
+        // the test backend keeps whatever an earlier frame left there - not counted)
+        let pins: usize = rows
+            .iter()
+            .map(|r| {
+                let (mut n, mut covered) = (0usize, false);
+                for ch in r.chars() {
+                    if ch == '\u{1F4CD}' && !covered {
+                        n += 1;
+                        covered = true;
+                    } else {
+                        covered = false;
+                    }
+                }
+                n
+            })
+            .sum();
+        let located_visible: BTreeSet<IpAddr> = flows
+            .iter()
+            .flat_map(|f| st.hops_for_flow(*f).iter().filter(|h| privacy.is_none_or(|n| h.ttl() > n)).flat_map(|h| h.addrs().copied().collect::<Vec<_>>()).collect::<Vec<_>>())
+            .collect();
+        o.hit("map_pins_only_for_visible_hops");
+        if pins > located_visible.len() {
+            if std::env::var("VERIF_TRACE").is_ok() {
+                for rr in &rows {
+                    eprintln!("{}", rr.trim_end());
+                }
+                for f in &flows {
+                    for h in st.hops_for_flow(*f) {
+                        eprintln!("flow {f} ttl {} addrs {:?}", h.ttl(), h.addrs().collect::<Vec<_>>());
+                    }
+                }
+            }
+            o.violate(
+                "map_pins_only_for_visible_hops",
+                "map",
+                format!("{ctx}: {pins} location pins on the map although only {} responders are visible (privacy ttl {privacy:?}): the location of a hidden hop is drawn", located_visible.len()),
+                replay.clone(),
+            );
+            return;
+        }
+    }
     for a in hidden {
         if visible.contains(&a) {
             continue;
@@ -301,9 +347,22 @@ pub fn session(seed: u64, i: usize, tier: Tier, which: Which, progress: &crate::
         }
         h.push(e);
     };
+    // one session in five starts quietly: no round is published during the first cycles (the
+    // splash screen) and the privacy keys are pressed while the hop list is still empty
+    let quiet_start = r.chance(1, 5);
+    if quiet_start {
+        let find = |n: &str| keys.iter().find(|(k, _)| *k == n).copied();
+        if let (Some(ex), Some(co)) = (find("expand_privacy"), find("contract_privacy")) {
+            for k in [ex, co, ex, ex, co] {
+                if r.chance(3, 4) {
+                    burst.push_back(k);
+                }
+            }
+        }
+    }
     for c in 0..cycles {
         // ---- the trace changes between cycles
-        match r.below(10) {
+        match if quiet_start && c < 6 { 9 } else { r.below(10) } {
             0..=4 => {
                 let n = r.range(1, 3);
                 for _ in 0..n {
